@@ -329,6 +329,36 @@ func (w *world) engine(name string) (*engineRT, error) {
 	return e, nil
 }
 
+// probeMasks calls the harness-owned probe function (nine i32 parameters) on a clean stack and
+// through the dirty-stack variant with each pattern and returns, for each, the mask of parameters
+// whose 64-bit slot had a non-zero upper half when the host function looked at it.
+func (w *world) probeMasks(engine string) (map[string]uint64, error) {
+	eng, err := w.engine(engine)
+	if err != nil {
+		return nil, err
+	}
+	mod, err := eng.rt.InstantiateModule(w.ctx, eng.code, w.cfg)
+	if err != nil {
+		return nil, err
+	}
+	defer mod.Close(w.ctx)
+	args := []uint64{1, 2, 3, 4, 5, 6, 7, 8, 9}
+	out := map[string]uint64{}
+	r, err := mod.ExportedFunction(probeFn).Call(w.ctx, args...)
+	if err != nil {
+		return nil, err
+	}
+	out["clean"] = r[0]
+	for _, p := range dirtyPatterns {
+		r, err := mod.ExportedFunction("dirty:"+probeFn).Call(w.ctx, append([]uint64{p}, args...)...)
+		if err != nil {
+			return nil, err
+		}
+		out[fmt.Sprintf("pattern_%#x", p)] = r[0]
+	}
+	return out, nil
+}
+
 // checkTable compares the signature table with what the host module really exports.
 func checkTable() error {
 	ctx := context.Background()
